@@ -179,7 +179,10 @@ func (c *IPClient) measureClockOffsetIP(ctx context.Context, mtrcs *ipClientMetr
 	}
 	cTxTime1, id, err := udp.ReadTXTimestamp(conn)
 	if err != nil || id != 0 {
-		cTxTime1 = timebase.Now()
+		// fall back on the clock reading taken before the request was sent: a
+		// reading taken now, after ReadTXTimestamp has waited in vain, would lie
+		// after the transmission and possibly after the response's arrival
+		cTxTime1 = cTxTime0
 		c.Log.LogAttrs(ctx, slog.LevelError, "failed to read packet tx timestamp", slog.Any("error", err))
 	}
 	mtrcs.reqsSent.Inc()
